@@ -55,7 +55,9 @@ def k_check(prop, outcome, items, quick_timeout=240, thorough_timeout=1200, sess
         solver_s += float(stats.get("runtime_solver_s", 0) or 0) + float(stats.get("runtime_decision_procedure_s", 0) or 0)
         symex_s += float(stats.get("runtime_symex_s", 0) or 0)
         vccs += int(stats.get("vccs_generated", 0) or 0)
-        unsat_covers = [d for d, s in res["covers"].items() if s != "Satisfied" and not d.startswith("opt:")]
+        unsat_covers = [d for d, s in res["covers"].items() if s != "Satisfied" and d.startswith("req:")]
+        if not any(s == "Satisfied" for s in res["covers"].values()):
+            unsat_covers.append("(no satisfied reachability witness at all)")
         entry = {
             "harness": short,
             "status": st,
